@@ -8,6 +8,9 @@ import (
 	"fmt"
 	"io"
 	"net/http"
+	"os"
+	"os/exec"
+	"path/filepath"
 	"net/url"
 	"strings"
 	"sync"
@@ -194,7 +197,7 @@ func c09Routes() []routeCase {
 func runC09(tier string, _ []string) int {
 	c := vlib.NewCtx("C09", tier, "exploration")
 	vlib.SetPortBlock(9)
-	c.SetRule("part A: an instance configured with an auth token; methods x node routes (/v1/nodes, /:id, /points, /samples, /parents, /not, unknown; path-cleaning variants) x 27 Authorization values (absent, empty, the token and near misses, Bearer variants, the instance's JWT, JWTs minted with the instance key read from the store file: other key, empty key, HS384, HS512, none, expired, payload-tampered, truncated, unsigned, garbage; plus a token used while valid and again after its expiry) x bodies; then all credentials at once from 12 goroutines (each answer must be the one its own credential deserves); each probe targets a fresh id and an existing node; monitor: status 401 for every non-credential, no bus message mentioning the probe id on a '>' tap, tree dump unchanged; credentials must be served; NATS TCP and WebSocket connects without / with a wrong token must fail. part B: user placements (created, moved, mirrored, deleted, re-added, under a deleted group, two users with one e-mail, wrong password) vs /v1/auth: token issued exactly when the model finds a live path to the root; the node listing for the issued token is a subset of the subtrees of the user's live placements. distinct = (credential, route kind, outcome) / (placement scenario, model verdict)")
+	c.SetRule("part A: an instance configured with an auth token; methods x node routes (/v1/nodes, /:id, /points, /samples, /parents, /not, unknown; path-cleaning variants) x 27 Authorization values (absent, empty, the token and near misses, Bearer variants, the instance's JWT, JWTs minted with the instance key read from the store file: other key, empty key, HS384, HS512, none, expired, payload-tampered, truncated, unsigned, garbage; plus a token used while valid and again after its expiry) x bodies; then all credentials at once from 12 goroutines (each answer must be the one its own credential deserves); each probe targets a fresh id and an existing node; monitor: status 401 for every non-credential, no bus message mentioning the probe id on a '>' tap, tree dump unchanged; credentials must be served; NATS TCP and WebSocket connects without / with a wrong token must fail. part A2: the same forged-token probes (tokens signed with an empty / zero key) against an instance restarted on a store whose first start was killed just before the signing key was written (real crash of a writer process at the sqlite.initJwtKey.beforeWrite site). part B: user placements (created, moved, mirrored, deleted, re-added, under a deleted group, two users with one e-mail, wrong password) vs /v1/auth: token issued exactly when the model finds a live path to the root; the node listing for the issued token is a subset of the subtrees of the user's live placements. distinct = (credential, route kind, outcome) / (placement scenario, model verdict)")
 	c.Assume("'open' header forms (whitespace around the token, lower-case scheme) are only required to leave no trace if answered 401")
 	cl := &http.Client{Timeout: 30 * time.Second}
 
@@ -486,6 +489,73 @@ func runC09(tier string, _ []string) int {
 			c.Violate("auth:authorized-write-not-applied", "a points write with the token answered 200 but is not stored", nil)
 		}
 	})
+
+	// ---------------- part A2: an instance whose first start died just before the signing key was
+	// written (real crash: the C04 writer process killed at the sqlite.initJwtKey.beforeWrite site),
+	// restarted with an auth token: it must not end up accepting tokens signed with "no key"
+	if self, err := os.Executable(); err == nil {
+		nCrash := c.N(2, 12)
+		for ci := 0; ci < nCrash && !vlib.Aborted(); ci++ {
+			r := vlib.NewR(c.Seed, "c09crash", ci)
+			dir, err := os.MkdirTemp("", "verif-c09crash-")
+			if err != nil {
+				c.Inconclusive(err.Error())
+				break
+			}
+			site := []string{"sqlite.initJwtKey.beforeWrite", "sqlite.initJwtKey.beforeWrite", "sqlite.initRoot.afterAdminEdge"}[ci%3]
+			cmd := exec.Command(self, "C04", tier, "worker", dir, fmt.Sprint(c.Seed), "1", "1", site, "1")
+			out, _ := cmd.CombinedOutput()
+			if !strings.Contains(string(out), "SITEKILL") {
+				os.RemoveAll(dir)
+				c.Inconclusive("the crash site " + site + " was not reached by the writer process")
+				continue
+			}
+			authToken := "tok-" + r.Ident(10)
+			in, err := vlib.StartInstance(vlib.InstCfg{StoreFile: filepath.Join(dir, "store.sqlite"), AuthToken: authToken})
+			if err != nil {
+				os.RemoveAll(dir)
+				c.Violate("auth:instance-does-not-start-after-crash-in-initialisation", err.Error(), map[string]any{"site": site})
+				break
+			}
+			base := "http://127.0.0.1:" + in.Opts.HTTPPort
+			wit := map[string]any{"crash_site": site}
+			claims := jwt.StandardClaims{ExpiresAt: time.Now().Add(time.Hour).Unix(), Issuer: "simpleiot", Id: in.RootID}
+			bad := ""
+			for name, key := range map[string][]byte{"empty key": {}, "nil key": nil, "one zero byte": {0}, "20 zero bytes": make([]byte, 20)} {
+				tok, err := jwt.NewWithClaims(jwt.SigningMethodHS256, claims).SignedString(key)
+				if err != nil {
+					continue
+				}
+				res, err := doHTTP(cl, "GET", base+"/v1/nodes", "Bearer "+tok, true, nil, "")
+				c.Eval(1)
+				if err == nil && res.Status != 401 {
+					bad = fmt.Sprintf("GET /v1/nodes with a token signed with %s answered %d on an instance restarted after a crash at %s", name, res.Status, site)
+					wit["key"] = name
+				}
+			}
+			st, tok, lerr := login(cl, base, "admin@admin.com", "admin")
+			if bad == "" && site == "sqlite.initJwtKey.beforeWrite" && (lerr != nil || st != 200 || tok == "") {
+				bad = fmt.Sprintf("the default admin cannot log in after the restart (status %d, %v)", st, lerr)
+			}
+			if bad == "" && tok != "" {
+				if res, err := doHTTP(cl, "GET", base+"/v1/nodes", "Bearer "+tok, true, nil, ""); err == nil && res.Status == 401 {
+					bad = "the token the instance just issued is refused"
+				}
+			}
+			in.Stop()
+			os.RemoveAll(dir)
+			if bad != "" {
+				sig := "auth:served-without-credentials:unsigned-token-after-crash-in-initialisation"
+				if !strings.Contains(bad, "signed with") {
+					sig = "auth:valid-credential-refused:after-crash-in-initialisation"
+				}
+				c.Violate(sig, bad, wit)
+				break
+			}
+			c.Count("restarts_after_crash_in_initialisation_checked", 1)
+			c.Distinct("restart after crash at " + site)
+		}
+	}
 
 	// ---------------- part B: who may log in
 	nScen := c.N(40, 600)
